@@ -704,7 +704,7 @@ class Solver:
                     new_args[key] = update_dic[key]
                 elif key in self.default_params:
                     new_args[key] = self.default_params[key]
-                new_value = func(**new_args)
+            new_value = func(**new_args)
             start_dic.update({name: new_value})
         self.param_dic.clear()
         self.param_dic.update(self.default_params)
